@@ -14,7 +14,7 @@ def u16 : Ty := .prim .u16
 def u32 : Ty := .prim .u32
 def u64 : Ty := .prim .u64
 def plain (n : String) (t : Ty) : Member := .mk n t .plain
-def dynArr (n : String) (t : Ty) : List Member := [.mk ("num_of_" ++ n) u32 .plain, .mk n t (.dyn ("num_of_" ++ n))]
+def dynArr (n : String) (t : Ty) : List Member := [.mk ("num_of_" ++ n) u32 .plain, .mk n t (.dyn ("num_of_" ++ n) 0)]
 
 def both (t : Ty) (v : Val) (bs : Bytes) : Bool :=
   Spec.enc t v .little == bs && (match Py.encode t v .little with | .ok b => b == bs | _ => false)
@@ -31,7 +31,7 @@ example : both (.struct "X" [.mk "num_of_x" u32 .plain, .mk "x" u16 (.limited "n
 -- Greedy array: 01 00 02 00
 example : both (.struct "X" [.mk "x" u16 .greedy]) (.struct [.arr [.int 1, .int 2]]) [1,0,2,0] = true := by decide
 -- Externally sized array: 02 04 05 00 06 00 07  (the document omits the final 00 of `07 00`)
-example : both (.struct "X" [.mk "size" u8 .plain, .mk "x" u8 (.dyn "size"), .mk "y" u16 (.dyn "size")])
+example : both (.struct "X" [.mk "size" u8 .plain, .mk "x" u8 (.dyn "size" 0), .mk "y" u16 (.dyn "size" 0)])
     (.struct [.sizer, .arr [.int 4, .int 5], .arr [.int 6, .int 7]]) [2,4,5,0,6,0,7,0] = true := by decide
 -- Optional: 01 00 00 00 01 00 00 00 / 00 00 00 00 00 00 00 00
 example : both (.struct "X" [.mk "x" u32 .optional]) (.struct [.present (.int 1)]) [1,0,0,0,1,0,0,0] = true := by decide
